@@ -109,7 +109,9 @@ func (b *inputBuilder) qual() types.Qualifier {
 	}
 }
 
-func (b *inputBuilder) typeStr(t types.Type) string { return types.TypeString(t, b.qual()) }
+func (b *inputBuilder) typeStr(t types.Type) string {
+	return types.TypeString(substTypeParams(t), b.qual())
+}
 
 func (b *inputBuilder) newVar(prefix string) string {
 	b.nvar++
@@ -550,7 +552,15 @@ func (x *Exec) buildReplay(prop string, o *Obligation, work string, timeout int)
 	if sig.Recv() != nil {
 		call = fmt.Sprintf("%s.%s(%s)", names[0], fn.Name(), strings.Join(names[1:], ", "))
 	} else {
-		call = fmt.Sprintf("%s(%s)", fn.Name(), strings.Join(names, ", "))
+		targs := ""
+		if tp := sig.TypeParams(); tp != nil && tp.Len() > 0 {
+			var as []string
+			for i := 0; i < tp.Len(); i++ {
+				as = append(as, "any")
+			}
+			targs = "[" + strings.Join(as, ", ") + "]"
+		}
+		call = fmt.Sprintf("%s%s(%s)", fn.Name(), targs, strings.Join(names, ", "))
 	}
 	if sig.Variadic() {
 		call = strings.TrimSuffix(call, ")") + "...)"
